@@ -20,6 +20,14 @@ from .core import load_known_findings, canon, strict_json
 HOME = os.environ.get("VERIF_HOME", os.path.dirname(os.path.dirname(os.path.abspath(__file__))))
 
 
+def replay_root():
+    """replays/ for /repo itself; a separate sub-directory per scratch copy (selftest runs in parallel)"""
+    repo = os.path.realpath(os.environ.get("VERIF_REPO", "/repo"))
+    if repo == "/repo":
+        return os.path.join(HOME, "replays")
+    return os.path.join(HOME, "replays", "_scratch", repo.strip("/").replace("/", "_"))
+
+
 def eprint(*a):
     print(*a, file=sys.stderr, flush=True)
 
@@ -78,7 +86,7 @@ def main(argv=None):
     )
     nshards = max(1, min(nshards, 16))
     # stale replays of this property are removed: files found afterwards are from this run
-    shutil.rmtree(os.path.join(HOME, "replays", prop), ignore_errors=True)
+    shutil.rmtree(os.path.join(replay_root(), prop), ignore_errors=True)
     tmp = tempfile.mkdtemp(prefix=f"verif-{prop}-")
     procs = []
     timeout = float(os.environ.get("VERIF_SHARD_TIMEOUT", getattr(mod, "SHARD_TIMEOUT", {}).get(a.tier, 3600 if a.tier == "quick" else 6 * 3600)))
